@@ -163,6 +163,7 @@ fn run_entry<C: Context<NumericTypes = DefaultNumericTypes> + ContextWithMutable
             let mut it = e.split(' ');
             let opname = it.next().unwrap_or("");
             let k: usize = it.next().and_then(|x| x.parse().ok()).unwrap_or(0);
+            let child_kind = it.next().unwrap_or("Const");
             let op: Operator = match opname {
                 "RootNode" => Operator::RootNode, "Add" => Operator::Add, "Sub" => Operator::Sub, "Neg" => Operator::Neg, "Mul" => Operator::Mul,
                 "Div" => Operator::Div, "Mod" => Operator::Mod, "Exp" => Operator::Exp, "Eq" => Operator::Eq, "Neq" => Operator::Neq, "Gt" => Operator::Gt,
@@ -179,7 +180,31 @@ fn run_entry<C: Context<NumericTypes = DefaultNumericTypes> + ContextWithMutable
             *node.operator_mut() = op;
             node.children_mut().clear();
             for i in 0..k {
-                node.children_mut().push(build_operator_tree::<DefaultNumericTypes>(&format!("c{}({})", i, i)).unwrap());
+                // the observable part of a child is the call c{i}({i}); its own top operator is set to the requested kind, keeping the call below it
+                let call = build_operator_tree::<DefaultNumericTypes>(&format!("c{}({})", i, i)).unwrap();
+                let mut child = build_operator_tree::<DefaultNumericTypes>("0").unwrap();
+                child.children_mut().clear();
+                match child_kind {
+                    "Const" | "RootNode" => child = call,
+                    "VariableIdentifierWrite" => {
+                        *child.operator_mut() = Operator::VariableIdentifierWrite { identifier: format!("v{}", i) };
+                    },
+                    "VariableIdentifierRead" => {
+                        *child.operator_mut() = Operator::VariableIdentifierRead { identifier: "x".to_string() };
+                    },
+                    "FunctionIdentifier" => child = call,
+                    "Add" => {
+                        *child.operator_mut() = Operator::Add;
+                        child.children_mut().push(call);
+                        child.children_mut().push(build_operator_tree::<DefaultNumericTypes>("0").unwrap());
+                    },
+                    _ => {
+                        *child.operator_mut() = Operator::Assign;
+                        child.children_mut().push(build_operator_tree::<DefaultNumericTypes>("w").map(|mut n| { n.children_mut().clear(); *n.operator_mut() = Operator::VariableIdentifierWrite { identifier: "w".to_string() }; n }).unwrap());
+                        child.children_mut().push(call);
+                    },
+                }
+                node.children_mut().push(child);
             }
             if c.entry == "optree_mut" {
                 show(out, tag, node.eval_with_context_mut(ctx), enc)
